@@ -654,3 +654,78 @@ async fn standin_builder_h2_checks() {
     }
     assert!(wrong.is_empty(), "HTTP/2 request rules not applied:\n{}", wrong.join("\n"));
 }
+
+// ======================= unit `hosthdr` (set_host_header now under contract) =======================
+
+/// hosthdr.frame / hosthdr.others_untouched / hosthdr.no_host / hosthdr.no_panic [C13, C17]: only the Host header is
+/// added; method, version, URI, extensions and every other header (repeated values included) stay as they were; a URI
+/// without host leaves the request untouched and does not panic
+#[test]
+fn host_frame() {
+    use tower::Layer;
+    #[derive(Clone, Debug, PartialEq)]
+    struct Marker(u32);
+    for uri in ["http://example.com:8080/x?y=1", "https://[::1]/", "http://a_b.example:80", "/only/a/path?q", "*", "/"] {
+        for with_host in [false, true] {
+            let mut req = request(http::Method::POST, uri, http::Version::HTTP_10);
+            req.headers_mut().append("x-multi", "one".parse().unwrap());
+            req.headers_mut().append("x-multi", "two".parse().unwrap());
+            req.headers_mut().insert(http::header::CONNECTION, "keep-alive".parse().unwrap());
+            req.headers_mut().insert(http::header::USER_AGENT, "replay".parse().unwrap());
+            if with_host {
+                req.headers_mut().append(http::header::HOST, "caller.example".parse().unwrap());
+                req.headers_mut().append(http::header::HOST, "second.example".parse().unwrap());
+            }
+            req.extensions_mut().insert(Marker(7));
+            let before = req.headers().clone();
+            let out = SetHostHeaderLayer::new().layer(EchoPlain).call(req).now_or_never().unwrap().unwrap();
+            assert_eq!(out.method(), http::Method::POST, "{uri}");
+            assert_eq!(out.version(), http::Version::HTTP_10, "{uri}");
+            assert_eq!(out.uri(), uri, "{uri}: URI changed");
+            assert_eq!(out.extensions().get::<Marker>(), Some(&Marker(7)), "{uri}");
+            for name in before.keys().filter(|n| **n != http::header::HOST) {
+                assert_eq!(out.headers().get_all(name).iter().collect::<Vec<_>>(), before.get_all(name).iter().collect::<Vec<_>>(), "{uri}: header {name} changed");
+            }
+            let has_host = out.uri().host().is_some();
+            if with_host || !has_host {
+                assert_eq!(out.headers(), &before, "{uri}: header map changed although {}", if with_host { "the caller supplied Host" } else { "the URI has no host" });
+            } else {
+                assert_eq!(out.headers().len(), before.len() + 1, "{uri}: more than the Host header was added");
+                assert_eq!(out.headers().get_all(http::header::HOST).iter().count(), 1, "{uri}");
+            }
+        }
+    }
+}
+
+/// hosthdr.no_panic / hosthdr.full_map [C17, C13] - reproducer of F13 (fixed by 58b3cd9): a request whose header map cannot
+/// take another name (24576 distinct names, the `http` crate's MAX_SIZE) goes through `set_host_header` unchanged and without
+/// a panic, whether or not the caller supplied a Host header.  Before the fix `HeaderMap::entry` panicked ("size overflows
+/// MAX_SIZE": `entry` reserves a slot before it looks the key up); a regression back to `entry` fails here.
+#[test]
+fn host_full_header_map() {
+    use tower::Layer;
+    for with_host in [false, true] {
+        let mut req = request(http::Method::GET, "http://example.com/x", http::Version::HTTP_11);
+        if with_host {
+            req.headers_mut().insert(http::header::HOST, http::HeaderValue::from_static("caller.example"));
+        }
+        let mut n = 0usize;
+        loop {
+            let name = http::header::HeaderName::from_bytes(format!("x-h{n}").as_bytes()).unwrap();
+            match req.headers_mut().try_insert(name, http::HeaderValue::from_static("v")) {
+                Ok(_) => n += 1,
+                Err(_) => break,
+            }
+        }
+        let before = req.headers().len();
+        let r = std::panic::catch_unwind(std::panic::AssertUnwindSafe(|| {
+            SetHostHeaderLayer::new().layer(EchoPlain).call(req).now_or_never().unwrap().unwrap()
+        }));
+        assert!(r.is_ok(), "set_host_header panicked for a request whose header map is full ({before} names, caller-supplied Host: {with_host})");
+        let out = r.unwrap();
+        assert_eq!(out.headers().len(), before, "a full header map changed");
+        if with_host {
+            assert_eq!(out.headers().get(http::header::HOST).unwrap(), "caller.example");
+        }
+    }
+}
